@@ -54,8 +54,10 @@ def _clean(o):
     return _clean(_default(o))
 
 
-def jdump(o, **kw):
-    return json.dumps(_clean(o), sort_keys=True, **kw)
+def jdump(o, sort_keys=True, **kw):
+    """JSON text.  sort_keys=False where the order of dictionary keys is part
+    of the input (e.g. the order of a `reparameterisations` dictionary)."""
+    return json.dumps(_clean(o), sort_keys=sort_keys, **kw)
 
 
 def jhash(o):
@@ -270,6 +272,6 @@ def save_replay(prop, v):
     name = f"{prop}-{jhash([v['key'], v['case']])}.json"
     path = os.path.join(REPLAY_DIR, name)
     with open(path, "w") as f:
-        f.write(jdump({"property": prop, **v}, indent=1))
+        f.write(jdump({"property": prop, **v}, sort_keys=False, indent=1))
         f.write("\n")
     return os.path.relpath(path, ROOT) if _OUT == ROOT else path
